@@ -58,3 +58,25 @@ unsigned long vp_qsize() { return N().my_queue ? N().my_queue->size() : 0; }
 unsigned long vp_npred() { return N().my_predecessors.my_q.size(); }
 unsigned vp_is_nothrow() { return N().my_is_no_throw; }
 }
+
+// ---- translator validation (spec: selftest=True): a fixed scenario executed as real C++ and as generated C, emitted values diffed
+extern "C" { void vp_emit(unsigned long v); unsigned vp_st_bag(); void vp_st_push(void*); void* vp_st_take(unsigned newest); void vp_st_reset(unsigned avail, unsigned accmask, unsigned flipmask); void vp_st_arena(unsigned); }
+static void st_run(unsigned newest, unsigned cancel) {
+  if (!vp_st_bag()) return;
+  d1::task* t = static_cast<d1::task*>(vp_st_take(newest));
+  vp_st_arena(1); void* b = vp_run_task(t, cancel); vp_st_arena(0);
+  if (b) vp_st_push(b);
+}
+static void st_state() { vp_emit(vp_conc()); vp_emit(vp_qsize()); vp_emit(vp_graph_refs()); vp_emit(vp_fwd_busy()); vp_emit(vp_npred()); vp_emit(vp_st_bag()); vp_emit(vp_refv_count(0)); }
+extern "C" void vp_selftest() {
+  for (unsigned conc = 0; conc < 3; conc++) for (unsigned flip = 0; flip < 2; flip++) {
+    vp_st_reset(3, 0x5b6d, flip * 3); vp_init(conc, 2); vp_refv_init(0); vp_refv_init(1);
+    for (int i = 0; i < 4; i++) { vp_emit(vp_put(10 + i)); st_state(); }
+    st_run(0, 0); st_state(); vp_add_pred(); st_state(); st_run(1, 0); st_state(); vp_emit(vp_put(20));
+    vp_reserve_wait(); st_state();
+    for (int i = 0; i < 4; i++) { st_run(i & 1, 0); st_state(); }
+    vp_add_succ(0); vp_emit(vp_put(21)); vp_emit(vp_put(22)); st_run(0, 1); st_state(); vp_release_wait();
+    for (int i = 0; i < 10; i++) st_run(0, 0);
+    st_state();
+  }
+}
